@@ -17,9 +17,11 @@ Import ListNotations.
 """
 VALUES = [["str", ""], ["str", "plain"], ["str", "héllo ✓ 😀"], ["str", "x" * 200000],
           ["str", "id,name\r\n1,a\r\n2,b\rc\n"], ["str", "\ufeffbom \x00 nul \x1a sub \u2028 ls \x85 nel\n\n"], ["str", "\n"], ["bytes", "0d0a1a000d"], ["bytes", ""], ["bytes", "00ff10"], ["bytes", "ab" * 70000],
-          ["bytearray", "0102"], ["none"], ["object"], ["int", 5], ["user", 3], ["frame"]]
+          ["bytearray", "0102"], ["none"], ["object"], ["int", 5], ["user", 3], ["frame"],
+          ["strenum"], ["strsub"], ["bytessub"], ["boolval"]]      # instances of SUBCLASSES of types with a dedicated codec
 EXPECTED_REF = {"str": "local.string", "bytes": "local.bytes", "bytearray": "local.bytes", "none": "local.pickle", "object": "local.pickle",
-                "int": "local.pickle", "user": "local.pickle", "frame": "local.pandas"}
+                "int": "local.pickle", "user": "local.pickle", "frame": "local.pandas", "strenum": "local.pickle", "strsub": "local.pickle",
+                "bytessub": "local.pickle", "boolval": "local.pickle"}
 REGS = [{"kind": "file", "ref": "user.str2", "type": "str"}, {"kind": "codec", "ref": "user.strc", "type": "str"},
         {"kind": "file", "ref": "user.bytes2", "type": "bytes"}, {"kind": "codec", "ref": "user.thing", "type": "user"},
         {"kind": "file", "ref": "user.obj", "type": "object"}, {"kind": "codec", "ref": "user.none", "type": "none"},
@@ -28,7 +30,8 @@ REGS = [{"kind": "file", "ref": "user.str2", "type": "str"}, {"kind": "codec", "
 
 def type_name(v):
     return {"str": "str", "bytes": "bytes", "bytearray": "bytearray", "none": "NoneType", "object": "dict", "int": "int",
-            "user": "__main__.UserThing", "frame": "pandas.core.frame.DataFrame"}[v[0]]
+            "user": "__main__.UserThing", "frame": "pandas.core.frame.DataFrame", "strenum": "__main__.Color", "strsub": "__main__.TaggedStr",
+            "bytessub": "__main__.Digest", "boolval": "bool"}[v[0]]
 
 
 def reg_coq(r):
@@ -66,7 +69,7 @@ def run_case(case):
 def run(rep, tier, seed, proof_ok):
     rng = random.Random(seed)
     rep.rule = ("values of every storable type (str: empty / ascii / non-ASCII incl. astral / 200 kB / CR, CRLF and other line separators, NUL, BOM; bytes: empty / binary / 140 kB; bytearray; "
-                "None; picklable object; int; instance of a user class; pandas frame) stored in the local store x sequences of codec "
+                "None; picklable object; int; bool; instance of a user class; pandas frame; instances of subclasses of str / bytes incl. a str-mixin Enum) stored in the local store x sequences of codec "
                 "registrations (file codecs and codecs for str, bytes, object, NoneType, the user class, and a second codec reusing the "
                 "reference 'local.string') before the writes, between write and read, and in a second process in another order; "
                 "checks: value read back equal in both processes, the reference recorded in the metadata is the one the Coq model of "
